@@ -137,6 +137,7 @@ type TypeInv struct {
 }
 
 type Contracts struct {
+	Immutable map[string][]string // struct type -> properties: fields are stored to only while the object is unpublished
 	stable   map[string]bool
 	TypeInvs map[string]*TypeInv
 	Guards map[string]*GuardDecl
@@ -153,11 +154,11 @@ var clauseKeywords = map[string]bool{
 	"props": true, "arith": true, "flags": true, "requires": true, "ensures": true, "modifies": true,
 	"loop": true, "track": true, "panics": true, "statement": true, "refines": true, "ghost-set": true, "params": true, "assert": true, "lemma": true,
 	"guarded": true, "onceinit": true, "nolock": true,
-	"theory": true, "sort": true, "const": true, "fun": true, "smt": true, "macro": true, "ghost-at": true, "ghost-set-post": true, "trusted-axiom": true, "typeinv": true, "assumes": true, "maypanic-call": true, "stepinv": true,
+	"theory": true, "sort": true, "const": true, "fun": true, "smt": true, "macro": true, "ghost-at": true, "ghost-set-post": true, "trusted-axiom": true, "typeinv": true, "immutable": true, "assumes": true, "maypanic-call": true, "stepinv": true,
 }
 
 func parseContracts(srcs []contractSource) (*Contracts, error) {
-	cs := &Contracts{TypeInvs: map[string]*TypeInv{}, Guards: map[string]*GuardDecl{}, ByID: map[string]*Contract{}, Specs: map[string]*SpecFunc{}, Ghosts: map[string]*GhostVar{}}
+	cs := &Contracts{Immutable: map[string][]string{}, TypeInvs: map[string]*TypeInv{}, Guards: map[string]*GuardDecl{}, ByID: map[string]*Contract{}, Specs: map[string]*SpecFunc{}, Ghosts: map[string]*GhostVar{}}
 	for _, src := range srcs {
 		// join continuation lines
 		type ln struct {
@@ -218,6 +219,18 @@ func parseContracts(srcs []contractSource) (*Contracts, error) {
 				}
 				cs.ByID["func "+id] = cur
 				cs.Order = append(cs.Order, "func "+id)
+			case "immutable":
+				// immutable <struct type> [props P...]
+				fs := strings.Fields(rest)
+				if len(fs) == 0 {
+					return nil, errf("immutable <type> [props ...]")
+				}
+				var props []string
+				if len(fs) > 2 && fs[1] == "props" {
+					props = fs[2:]
+				}
+				cs.Immutable[fs[0]] = props
+				cur = nil
 			case "typeinv":
 				j := strings.Index(rest, ":")
 				if j < 0 {
